@@ -217,14 +217,16 @@ def cmpModel (what : String) (m : Except Err (SR Float)) (impl : Tok) : Option S
 
 /-! ## gonum `scalar.EqualWithinULP(a, b, 3)` -/
 
-def closeF (a b : Float) : Bool :=
+def closeUlpF (ulp : Nat) (a b : Float) : Bool :=
   if a == b then true
   else if a.isNaN || b.isNaN then false
   else
     let ba := a.abs.toBits.toNat
     let bb := b.abs.toBits.toNat
-    if (a.toBits.toNat ≥ 2 ^ 63) != (b.toBits.toNat ≥ 2 ^ 63) then ba + bb ≤ 3
-    else (if ba ≥ bb then ba - bb else bb - ba) ≤ 3
+    if (a.toBits.toNat ≥ 2 ^ 63) != (b.toBits.toNat ≥ 2 ^ 63) then ba + bb ≤ ulp
+    else (if ba ≥ bb then ba - bb else bb - ba) ≤ ulp
+
+def closeF (a b : Float) : Bool := closeUlpF 3 a b
 
 def eqTok : Option Bool → String
   | some true => "t" | some false => "f" | none => "panic"
